@@ -20,6 +20,7 @@ ATV_BAD_KINDS = ["fork", "expired", "unkn", "nobop"]
 # finding: after a failed setState / non-switching comparePopScore whose VTB temporarily moved the BTC best chain to a
 # fork of EQUAL work, the BTC best chain is not moved back (nothing else differs)
 BTC_TIE_KEY = "C02:btc-tip-not-restored-on-tie"
+CACHED_VERDICT_KEY = "C01:verdict-0-vs-1-cached-invalid"
 BTC_TIE_RE = re.compile(r"views differ: -\[BTC best b\d+\] \+\[BTC best b\d+\]$")
 # planted VTBs: btcgap = BTC context does not connect (fails before the command group is built);
 # wunkn / wexpired = passes the stateless checks and the BTC-context check, fails INSIDE its command group after its
@@ -696,6 +697,7 @@ class Script:
         self.lines = []
         self.gens = {}
         self.equal = []       # (id, id, what) answers that must be equal (C01)
+        self.cached_ok = set()  # first id of a verdict pair that is a second encounter of an invalid candidate
         self.guard = {}       # first id of an equal pair -> (history prefix, (tip line id, candidate)): SP carve-out
         self.modelled = set() # history prefixes whose ops are all modelled
         self.stats = {}
@@ -1027,13 +1029,14 @@ def c01_twin_tail(g, sc, r, spf, cands=None, n_cmp=4, shown=None):
     t0 = tipline()
     both("POP state after the history vs fresh instance shown only the active chain", "obs", "pop", guard=(t0, None))
     both("payouts", "payouttip", guard=(t0, None))
-    # Blocks with a planted invalid payload in their ancestry are compared on FIRST encounter only (built right below):
-    # an instance that has validated such a block before answers 1 from the cached FAILED_POP mark, a fresh one may
-    # answer 0 from the keystone short-cut without validating it - validity marks are not part of the POP state.
-    def clean(x):
-        return not any(y in g.planted_blocks for y in g.ancestry(x))
-    ids = [x for x in sorted(g.alt, key=lambda a: int(a[1:])) if clean(x)]
-    cands = [x for x in cands if clean(x)] if cands else cands
+    # Candidates with a planted invalid payload in their ancestry are compared on every encounter. On a SECOND encounter
+    # (A validated the block before: during its history or in an earlier twin round) A answers 1 from the cached
+    # FAILED_POP mark while a fresh twin may answer 0 from the keystone short-cut without validating: exactly that
+    # case (A=1, B=0, second encounter) is reported under CACHED_VERDICT_KEY, every other difference is a violation.
+    ids = sorted(g.alt, key=lambda a: int(a[1:]))
+    if not hasattr(g, "a_seen"):
+        g.a_seen = set()
+    g.a_seen |= set(shown or ())
     for _ in range(n_cmp):
         c = r.choice(cands) if cands and not r.chance(1, 4) else r.choice(ids)
         if shown is not None and r.chance(1, 3):
@@ -1046,9 +1049,13 @@ def c01_twin_tail(g, sc, r, spf, cands=None, n_cmp=4, shown=None):
             g.fork_pool = ()
             sc.bump("c01_twin_invalid_candidates")
             sc.bump("c01_twin_invalid_candidate_" + g.bad.get(g.alt[c]["atvs"][-1] if g.alt[c]["atvs"] else None, "other"))
+        second = any(y in g.planted_blocks and y in g.a_seen for y in g.ancestry(c))
+        g.a_seen |= set(g.ancestry(c))
         g.emit("show A %s" % c)
         g.emit("show B %s" % c)
         t1 = tipline()
+        if second:
+            sc.cached_ok.add("%s_c%d" % (pre, len(g.lines) + 1))
         both("comparePopScore verdict against candidate " + c, "cmp", c, guard=(t1, c))
         t2 = tipline()
         both("POP state after comparing with " + c, "obs", "pop", guard=(t2, None))
@@ -1259,6 +1266,7 @@ def run_check(ctx, pid):
     if ctx.replay and "script" in ctx.replay:
         sc.lines = list(ctx.replay["script"])
         sc.equal = [tuple(e) for e in ctx.replay.get("equal", [])]
+        sc.cached_ok = set(ctx.replay.get("cached_ok", []))
         replay_model = ctx.replay.get("model")
     else:
         replay_model = None
@@ -1268,6 +1276,7 @@ def run_check(ctx, pid):
                 tag = "k%d" % j
                 sc.lines += _reid(obj["script"], tag)
                 sc.equal += [(tag + a, tag + b, w) for a, b, w in obj.get("equal", [])]
+                sc.cached_ok |= {tag + a for a in obj.get("cached_ok", [])}
                 sc.bump("corpus")
         if pid == "C02":
             if quick:
@@ -1312,7 +1321,7 @@ def run_check(ctx, pid):
     # Violations are collected by kind and emitted with preference for diversity (the driver keeps five): at most two
     # library aborts, and a slot each for the first snapshot-oracle, model-disagreement, trace-oracle, re-activation and
     # twin failure, so that a replay shows the most specific evidence available.
-    pending = {"abort": [], "snapshot": [], "btctie": [], "model": [], "trace": [], "react": [], "equal": []}
+    pending = {"abort": [], "snapshot": [], "btctie": [], "cachedverdict": [], "model": [], "trace": [], "react": [], "equal": []}
     nviol = 0
     # 1. crashes (assertion failures / aborts inside the library)
     for hist, line, err in crashes:
@@ -1358,6 +1367,16 @@ def run_check(ctx, pid):
                 ncarved += 1
                 continue
         neq += 1
+        if ra != rb and a in sc.cached_ok and ra == "1" and rb == "0" and what.startswith("comparePopScore verdict"):
+            if not pending["cachedverdict"]:
+                pre = a.rsplit("_", 1)[0]
+                pending["cachedverdict"].append(({"kind": "ops", "script": history_of(lines, a), "at": [a, b], "A": ra, "B": rb,
+                                                  "equal": [[x, y, w] for x, y, w in sc.equal if x.rsplit("_", 1)[0] == pre],
+                                                  "cached_ok": sorted(x for x in sc.cached_ok if x.rsplit("_", 1)[0] == pre),
+                                                  "key": CACHED_VERDICT_KEY,
+                                                  "what": "verdict 1 (cached FAILED_POP) vs 0 (keystone short-cut, not validated) "
+                                                          "against an invalid candidate: " + what}, False))
+            continue
         if ra != rb:
             pre = a.rsplit("_", 1)[0]
             if (pre, "equal") in seen_cat:
@@ -1439,6 +1458,7 @@ def run_check(ctx, pid):
     for cat in ("snapshot", "trace", "react", "equal", "model"):
         order += pending[cat]
     order += pending["btctie"][:1]
+    order += pending["cachedverdict"][:1]
     # a model disagreement counts as "no failing input found" only when nothing concrete is reported
     concrete = any(not ni for _, ni in order)
     for obj, ni in order:
